@@ -193,3 +193,48 @@ func TestDevNativeCases(t *testing.T) {
 		}
 	}
 }
+
+func TestDevAlias(t *testing.T) {
+	if os.Getenv("C04_DEV") != "alias" {
+		t.Skip()
+	}
+	w, err := buildWorld(false, 0)
+	if err != nil {
+		t.Fatal(err)
+	}
+	t0 := time.Now()
+	aw, err := buildAliasWorld(w)
+	if err != nil {
+		t.Fatal(err)
+	}
+	fmt.Println("alias world:", time.Since(t0), "Q script", len(aw.qc.NEF.Script), "leaves", len(aw.leaves), "NA", aw.srcNA)
+	for _, l := range aw.leaves {
+		fmt.Println("   ", l.Name(), string(rune(l.Only)))
+	}
+	jobs, info := aw.jobs(os.Getenv("C04_T") != "")
+	b, _ := jsonMarshal(info)
+	fmt.Println(string(b))
+	fmt.Println("jobs", len(jobs))
+	st := newAStats()
+	lim := len(jobs)
+	if v := os.Getenv("C04_N"); v != "" {
+		fmt.Sscan(v, &lim)
+	}
+	step := len(jobs)/lim + 1
+	for i := 0; i < len(jobs); i += step {
+		j := jobs[i]
+		t1 := time.Now()
+		fails, err := aw.runChunk(j.backend, j.cases, j.modes, st)
+		fmt.Println("chunk", i, j.backend, j.modes, len(j.cases), j.cases[0].Name(), time.Since(t1), "fails", len(fails), err)
+		for k, f := range fails {
+			if k < 5 {
+				name := ""
+				if f.Case != nil {
+					name = f.Case.Name()
+				}
+				fmt.Println("   FAIL", f.Mode, f.What, name, f.Detail)
+			}
+		}
+	}
+	fmt.Println("pairs", st.testPairs.Get(), "halted", st.halted.Get(), "faulted", st.faulted.Get(), "refused", st.refused.Get(), "blocktx", st.blockTxs.Get())
+}
